@@ -287,6 +287,36 @@ def intrinsic_job(job, acc: Acc):
         acc.sample({"intrinsic": name, "kind": kind, "document": text})
 
 
+# --------------------------------------------------------- special entities
+# Small programs around entities whose *kind* differs from what their declaration form suggests (a dummy procedure or
+# procedure pointer whose interface is a generic, a binding to a generic, a type named like a module procedure's
+# dummy ...): every positional method at every token.
+SPECIAL = {
+    "generic_as_interface": "module sgm\n  implicit none\n  interface sgen\n    module procedure ss1, ss2\n  end interface sgen\n  procedure(sgen), pointer :: spp\ncontains\n"
+                            "  subroutine ss1(a)\n    integer :: a\n  end subroutine ss1\n  subroutine ss2(a)\n    real :: a\n  end subroutine ss2\n"
+                            "  subroutine shost(cb)\n    procedure(sgen) :: cb\n    call cb(1)\n    call spp(2.0)\n    call sgen(3)\n  end subroutine shost\nend module sgm\n",
+    "bound_generic": "module sbm\n  implicit none\n  type :: sbt\n  contains\n    procedure :: sb1\n    procedure :: sb2\n    generic :: sbg => sb1, sb2\n    generic :: operator(+) => sb3\n    procedure :: sb3\n  end type sbt\ncontains\n"
+                     "  subroutine sb1(self, a)\n    class(sbt) :: self\n    integer :: a\n  end subroutine sb1\n  subroutine sb2(self, a)\n    class(sbt) :: self\n    real :: a\n  end subroutine sb2\n"
+                     "  function sb3(self, o) result(r)\n    class(sbt), intent(in) :: self, o\n    type(sbt) :: r\n  end function sb3\n"
+                     "  subroutine suse(v)\n    type(sbt) :: v, w\n    call v%sbg(1)\n    w = v + v\n  end subroutine suse\nend module sbm\n",
+    "abstract_deferred": "module sam\n  implicit none\n  type, abstract :: sat\n  contains\n    procedure(sai), deferred :: sad\n  end type sat\n  abstract interface\n    subroutine sai(self)\n      import :: sat\n"
+                         "      class(sat) :: self\n    end subroutine sai\n  end interface\ncontains\n  subroutine suse2(v)\n    class(sat) :: v\n    call v%sad()\n  end subroutine suse2\nend module sam\n",
+}
+
+
+def special_job(name, acc: Acc):
+    text = SPECIAL[name]
+    s = _server()
+    path = os.path.join(_S["root"], "zz_special_probe.f90")
+    s.open(path)
+    s.change(path, [{"text": text}])
+    for ln, line in enumerate(text.split("\n")):
+        for m in TOKEN.finditer(line):
+            for col in sorted({m.start(), (m.start() + m.end()) // 2, m.end()}):
+                request_all(s, "special_entities", path, ln, col, acc, f"special {name}", extra_tags={"program": name}, case_extra={"program": name})
+    acc.sample({"program": name, "text": text}, cap=1)
+
+
 # ---------------------------------------------------------------- fragments
 # Documents of one or two lines made of statement fragments (complete, partial and broken; the alphabet of C03), so that
 # the cursor also stands outside any program unit, in files without a single scope: every column, every method.
@@ -606,6 +636,8 @@ def main(ctx):
     names = intrinsic_names()
     iacc = core.pmap(intrinsic_job, names, chunk=4, budget_s=600, label="C09/intrinsics")
     ctx.add_family("intrinsics", iacc, names=len(names))
+    pacc = core.pmap(special_job, sorted(SPECIAL), chunk=1, budget_s=300, label="C09/special")
+    ctx.add_family("special_entities", pacc, programs=len(SPECIAL))
     facc = core.pmap(fragment_job, list(fragment_jobs()), chunk=4, budget_s=300, label="C09/fragments")
     ctx.add_family("fragments", facc)
     dacc = core.pmap(diag_job, list(diag_cases()), chunk=2, budget_s=120, label="C09/diag")
@@ -637,6 +669,9 @@ def replay(rec):
     elif fam == "mutants":
         m = re.match(r"(.*) \[(\w+) line (\d+)\]", c["file"])
         mutant_job((m.group(1), m.group(2), int(m.group(3))), acc)
+    elif fam == "special_entities":
+        special_job(c["program"], acc)
+        return [v.to_json("C09") for v in acc.violations if (v.case.get("method"), v.case.get("line"), v.case.get("character")) == (c.get("method"), c.get("line"), c.get("character"))] or None
     elif fam == "fragments":
         from . import c03
 
